@@ -372,10 +372,16 @@ def run(pm, ctx):
                       key='C08-R4|%s|default' % g.qualname)
     # dt is the unwrapped type
     d = defs(g.node)
-    ok_unwrap = any(isinstance(v, ast.Call) and call_name(v) == 'unwrap_nullable'
-                    for v in d.all_values('dt'))
-    ctx.check('C08-R4', ok_unwrap, 'dispatch subject is unwrap_nullable(data_type)', g.loc,
-              msg='generate_validator_constructor no longer unwraps Nullable before dispatching',
+    dvals = d.all_values('dt')
+    ok_unwrap = bool(dvals) and all(isinstance(v, ast.Call) and call_name(v) == 'unwrap_nullable'
+                                    and v.args and unparse(v.args[0]) == 'data_type'
+                                    for v in dvals)
+    ctx.check('C08-R4', ok_unwrap, 'dispatch subject is exactly unwrap_nullable(data_type): one '
+              'Nullable layer is peeled, aliases are kept and referenced by their validator name',
+              g.loc,
+              msg='generate_validator_constructor computes its dispatch subject as %s: peeling '
+                  'aliases inlines the target validator and loses what the alias validator '
+                  'carries (its redactor, its name)' % sorted({unparse(v) for v in dvals}),
               key='C08-R4|%s|unwrap' % g.qualname)
 
     validator_construction(pm, ctx, 'C08-R3')
